@@ -3,6 +3,8 @@ import Mathlib.Tactic.LinearCombination
 import Mathlib.Analysis.SpecialFunctions.ExpDeriv
 import Mathlib.Analysis.SpecialFunctions.Log.Deriv
 import Mathlib.Analysis.SpecialFunctions.Trigonometric.ArctanDeriv
+import Mathlib.Analysis.Calculus.Deriv.Inv
+import Mathlib.Tactic.FunProp
 /-!
 # C06 helper lemmas: the non-linear nodes (softmax, activations, intensity, phase, cost functions)
 -/
@@ -263,6 +265,126 @@ theorem sigmoid_deriv' (a x0 y0 x : ℝ) :
   rw [hfun]
   refine h.congr_deriv ?_
   simp only [sigmoidBack, sigmoidFwd, ofInt_eq]; push_cast
+  field_simp
+  ring
+end C06L
+namespace C06L
+
+/-- the (squared) spread of the data that the gain divides by -/
+noncomputable def bgieDen (n : Nat) (I : Nat → ℝ) : ℝ :=
+  ∑ i ∈ range n, (I i - (∑ j ∈ range n, I j) / n) * (I i - (∑ j ∈ range n, I j) / n)
+
+theorem bgieAlpha_diff (n : Nat) (I D δ : Nat → ℝ) (hden : bgieDen n I ≠ 0) :
+    DifferentiableAt ℝ (fun t : ℝ => bgieAlpha n (fun i => I i + t * δ i) D) 0 := by
+  simp only [bgieAlpha, mean, sumTo_eq, ofInt_eq]
+  have hd : (∑ i ∈ range n, (I i + (0:ℝ) * δ i - (∑ j ∈ range n, (I j + (0:ℝ) * δ j)) / ((n : ℤ) : ℝ)) *
+      (I i + (0:ℝ) * δ i - (∑ j ∈ range n, (I j + (0:ℝ) * δ j)) / ((n : ℤ) : ℝ))) ≠ 0 := by
+    simpa [bgieDen] using hden
+  fun_prop (disch := exact hd)
+end C06L
+namespace C06L
+
+theorem bgieBeta_diff (n : Nat) (I D δ : Nat → ℝ) (hden : bgieDen n I ≠ 0) :
+    DifferentiableAt ℝ (fun t : ℝ => bgieBeta n (fun i => I i + t * δ i) D) 0 := by
+  have hA := bgieAlpha_diff n I D δ hden
+  simp only [bgieBeta, mean, sumTo_eq, ofInt_eq]
+  fun_prop
+
+theorem bgieDen_eventually (n : Nat) (I δ : Nat → ℝ) (hden : bgieDen n I ≠ 0) :
+    ∀ᶠ t in nhds (0:ℝ), bgieDen n (fun i => I i + t * δ i) ≠ 0 := by
+  have hc : ContinuousAt (fun t : ℝ => bgieDen n (fun i => I i + t * δ i)) 0 := by
+    unfold bgieDen; fun_prop
+  have h0 : bgieDen n (fun i => I i + (0:ℝ) * δ i) ≠ 0 := by simpa using hden
+  exact hc.eventually_ne h0
+
+/-- bias-and-gain-invariant error, full statement: the returned gradient is the derivative of the returned cost
+(gain and bias re-estimated at every point), whenever the data are not constant (`bgieDen ≠ 0`) -/
+theorem bgie_hasDerivAt (n : Nat) (hn : 0 < n) (I D δ : Nat → ℝ) (hden : bgieDen n I ≠ 0) :
+    HasDerivAt (fun t : ℝ => bgieCost n (fun i => I i + t * δ i) D) (∑ i ∈ range n, bgieGrad n I D i * δ i) 0 := by
+  have hnK : ((n : ℕ) : ℝ) ≠ 0 := by exact_mod_cast hn.ne'
+  set α0 := bgieAlpha n I D with hα0
+  set β0 := bgieBeta n I D with hβ0
+  let A : ℝ → ℝ := fun t => bgieAlpha n (fun i => I i + t * δ i) D
+  let B : ℝ → ℝ := fun t => bgieBeta n (fun i => I i + t * δ i) D
+  let P : ℝ → ℝ := fun t => bgieC n (fun i => I i + t * δ i) D α0 β0
+  let w : ℕ → ℝ → ℝ := fun i t => (α0 - A t) * (I i + t * δ i) + (β0 - B t)
+  let Q : ℝ → ℝ := fun t => ∑ i ∈ range n, w i t * w i t
+  -- P is an exact quadratic in t with the right linear coefficient
+  have hP : HasDerivAt P (∑ i ∈ range n, bgieGrad n I D i * δ i) 0 := by
+    refine hasDerivAt_of_quadratic P (bgieC n I D α0 β0) _
+      (bgieR n D * ∑ i ∈ range n, (α0 * δ i) * (α0 * δ i)) (fun t => ?_)
+    have h := bgie_partial n I D δ α0 β0 t
+    simpa only [bgieGrad, bgieResid, ofInt_eq, Int.cast_ofNat, ← hα0, ← hβ0, P] using h
+  -- Q vanishes to second order at 0
+  have hA : DifferentiableAt ℝ A 0 := bgieAlpha_diff n I D δ hden
+  have hB : DifferentiableAt ℝ B 0 := bgieBeta_diff n I D δ hden
+  have hw0 : ∀ i, w i 0 = 0 := by
+    intro i
+    simp only [w, A, B, zero_mul, add_zero]
+    have e : (fun i => I i) = I := rfl
+    simp [hα0, hβ0]
+  have hw : ∀ i, DifferentiableAt ℝ (w i) 0 := by
+    intro i; simp only [w]; fun_prop
+  have hQ : HasDerivAt Q 0 0 := by
+    have : ∀ i ∈ range n, HasDerivAt (fun t => w i t * w i t) 0 0 := by
+      intro i _
+      have h : HasDerivAt (fun t => w i t * w i t) (deriv (w i) 0 * w i 0 + w i 0 * deriv (w i) 0) 0 :=
+        (hw i).hasDerivAt.mul (hw i).hasDerivAt
+      rw [hw0 i, mul_zero, zero_mul, add_zero] at h
+      exact h
+    have h : HasDerivAt (fun t => ∑ i ∈ range n, w i t * w i t) (∑ i ∈ range n, (0:ℝ)) 0 := HasDerivAt.fun_sum this
+    rw [Finset.sum_const_zero] at h
+    exact h
+  have hPQ : HasDerivAt (fun t => P t - bgieR n D * Q t) (∑ i ∈ range n, bgieGrad n I D i * δ i) 0 := by
+    have h : HasDerivAt (fun t => P t - bgieR n D * Q t) ((∑ i ∈ range n, bgieGrad n I D i * δ i) - bgieR n D * 0) 0 :=
+      hP.sub (hQ.const_mul (bgieR n D))
+    rw [mul_zero, sub_zero] at h
+    exact h
+  -- near 0 the cost is P − R·Q (stationarity of gain and bias at the perturbed data)
+  refine hPQ.congr_of_eventuallyEq ?_
+  filter_upwards [bgieDen_eventually n I δ hden] with t ht
+  have hs := bgie_stationary n hnK (fun i => I i + t * δ i) D (by simpa [bgieDen] using ht) (α0 - A t) (β0 - B t)
+  have e1 : bgieAlpha n (fun i => I i + t * δ i) D + (α0 - A t) = α0 := by simp only [A]; ring
+  have e2 : bgieBeta n (fun i => I i + t * δ i) D + (β0 - B t) = β0 := by simp only [B]; ring
+  rw [e1, e2] at hs
+  rw [bgieCost_eq]
+  simp only [P, Q, w]
+  linarith [hs]
+end C06L
+namespace C06L
+
+/-- negative log-likelihood: the returned gradient is the derivative of the returned cost wherever the
+logarithms are differentiable (`y_i ≠ 0`, `y_i ≠ 1`) -/
+theorem nll_hasDerivAt (n : Nat) (y yhat δ : Nat → ℝ) (hy : ∀ i ∈ range n, y i ≠ 0 ∧ 1 - y i ≠ 0) :
+    HasDerivAt (fun t : ℝ => nllCost Real.log n (fun i => y i + t * δ i) yhat)
+      (∑ i ∈ range n, nllGrad n y yhat i * δ i) 0 := by
+  have hterm : ∀ i ∈ range n, HasDerivAt
+      (fun t : ℝ => yhat i * Real.log (y i + t * δ i) + (1 - yhat i) * Real.log (1 - (y i + t * δ i)))
+      (yhat i * (δ i / y i) + (1 - yhat i) * (-δ i / (1 - y i))) 0 := by
+    intro i hi
+    obtain ⟨h1, h2⟩ := hy i hi
+    have ha : HasDerivAt (fun t : ℝ => y i + t * δ i) (δ i) 0 := by
+      simpa using ((hasDerivAt_id (0:ℝ)).mul_const (δ i)).const_add (y i)
+    have hb : HasDerivAt (fun t : ℝ => 1 - (y i + t * δ i)) (-δ i) 0 := by
+      simpa using ha.const_sub 1
+    have la := ha.log (by simpa using h1)
+    have lb := hb.log (by simpa using h2)
+    have h : HasDerivAt
+        (fun t : ℝ => yhat i * Real.log (y i + t * δ i) + (1 - yhat i) * Real.log (1 - (y i + t * δ i)))
+        (yhat i * (δ i / (y i + 0 * δ i)) + (1 - yhat i) * (-δ i / (1 - (y i + 0 * δ i)))) 0 :=
+      (la.const_mul (yhat i)).add (lb.const_mul (1 - yhat i))
+    simpa using h
+  have hsum := HasDerivAt.fun_sum hterm
+  have hall := hsum.const_mul (-(1 / (n : ℝ)))
+  have hfun : (fun t : ℝ => nllCost Real.log n (fun i => y i + t * δ i) yhat)
+      = fun t : ℝ => -(1 / (n : ℝ)) * ∑ i ∈ range n,
+          (yhat i * Real.log (y i + t * δ i) + (1 - yhat i) * Real.log (1 - (y i + t * δ i))) := by
+    funext t; simp only [nllCost, sumTo_eq, ofInt_eq]; push_cast; rfl
+  rw [hfun]
+  refine hall.congr_deriv ?_
+  simp only [nllGrad, ofInt_eq, Finset.mul_sum]; push_cast
+  refine Finset.sum_congr rfl fun i hi => ?_
+  obtain ⟨h1, h2⟩ := hy i hi
   field_simp
   ring
 end C06L
